@@ -12,6 +12,7 @@ import (
 	"fmt"
 	"math/rand"
 	"os"
+	"strings"
 
 	"verif/harness/vk"
 )
@@ -423,6 +424,9 @@ func Gen(r *vk.Run, n int) error {
 			return err
 		}
 	}
+	if err := staleClogTail(r); err != nil {
+		return err
+	}
 	nc := n/12 + 2
 	if thorough {
 		nc = n/4 + 4
@@ -432,6 +436,65 @@ func Gen(r *vk.Run, n int) error {
 			return err
 		}
 	}
+	return nil
+}
+
+// staleClogTail: falsifier-only directed scenario (no case for the model: the model does not contain
+// the appendable layer). Small chunk files (FileSize 256), synced store with external commit allowance:
+// precommit 1..8; AllowCommitUpto(8); Discard(8); Sync() stops midway after appending the commit-log
+// entries of 1..7 (chunk rotation flushes most of them to the first chunk file);
+// SetExternalCommitAllowance(true); Discard(3); precommit new 3, 4; AllowCommitUpto(4); Sync() commits
+// 1..4 (the commit log is rewound with SetOffset, which never truncates the file: the stale entries of the
+// OLD 5, 6, 7 stay behind); Close; Open counts them: committed id 7, and tx 5 chains to the DISCARDED tx 4.
+func staleClogTail(r *vk.Run) error {
+	cfg := base(true, false, true)
+	cfg.MaxActive = 20
+	cfg.FileSize = 256
+	w, err := newWorld(r, fmt.Sprintf("seed %d stale-clog-tail", r.Seed), cfg)
+	if err != nil {
+		return err
+	}
+	defer w.close()
+	w.collect = true
+	var steps []*Step
+	for i := 1; i <= 8; i++ {
+		steps = append(steps, put(i%3, fmt.Sprintf("k%d", i), fmt.Sprintf("v%d", i), int64(1000+i)))
+	}
+	steps = append(steps, &Step{Kind: "allow", N: 8}, &Step{Kind: "discard", N: 8}, &Step{Kind: "sync"},
+		&Step{Kind: "setext", B: true}, &Step{Kind: "discard", N: 3},
+		put(0, "n3", "w3", 1010), put(1, "n4", "w4", 1011), &Step{Kind: "allow", N: 4}, &Step{Kind: "sync"})
+	for i, s := range steps {
+		w.stepIdx = i
+		if _, fatal := w.execSafe(s); fatal {
+			break
+		}
+	}
+	before := uint64(len(w.seen))
+	w.stepIdx = len(steps)
+	w.execSafe(&Step{Kind: "reopen"})
+	w.drainPending(true)
+	after := uint64(len(w.seen))
+	broken := ""
+	var other []string
+	for _, f := range w.collected {
+		switch {
+		case strings.HasPrefix(f, "prevalh-broken"):
+			broken = f
+		case strings.HasPrefix(f, "reopen-committed-more"), strings.HasPrefix(f, "blroot-mismatch"),
+			strings.HasPrefix(f, "ack-mismatch[after-discard]"):
+			// consequences of the same stale entries / of the known waiter defect
+		default:
+			other = append(other, f)
+		}
+	}
+	w.collect = false
+	if broken != "" {
+		w.r.Finding(fmt.Sprintf("stale-clog-tail: after a clean Close/Open the committed id is %d (was %d) and the chain is broken: %s [%s]", after, before, broken, w.tag))
+	}
+	for _, f := range other {
+		w.r.Finding(f + " [" + w.tag + "]")
+	}
+	r.Stats["falsifier/stale-clog-tail"]++
 	return nil
 }
 
